@@ -3,6 +3,7 @@ package PKGNAME
 import (
 	"crypto/hmac"
 	"crypto/md5"
+	"crypto/sha1"
 	"crypto/sha256"
 	"crypto/tls"
 	"hash"
@@ -240,6 +241,11 @@ func HarnessC14Scram() {
 		svAssume(hxUserClass[c] == 1)
 	}
 	plus := svPick("plus", 3) // 0 plain SCRAM, 1 PLUS with tls-unique (TLS 1.2), 2 PLUS with tls-exporter (TLS 1.3)
+	sha1v := svPick("sha1", 2) == 1
+	hnew := sha256.New
+	if sha1v {
+		hnew = sha1.New
+	}
 	var a Auth
 	var cs *tls.ConnectionState
 	gs2 := []byte("n,,")
@@ -247,25 +253,34 @@ func HarnessC14Scram() {
 	switch plus {
 	case 0:
 		a = ScramSHA256Auth(string(user), string(pass))
+		if sha1v {
+			a = ScramSHA1Auth(string(user), string(pass))
+		}
 	case 1:
 		cs = &tls.ConnectionState{Version: tls.VersionTLS12, TLSUnique: []byte{1, 2, 3, 4, 5, 6, 7, 8, 9, 10, 11, 12}}
 		a = ScramSHA256PlusAuth(string(user), string(pass), cs)
+		if sha1v {
+			a = ScramSHA1PlusAuth(string(user), string(pass), cs)
+		}
 		gs2 = []byte("p=tls-unique,,")
 		cbind = append([]byte("p=tls-unique,,"), cs.TLSUnique...)
 	default:
 		cs = &tls.ConnectionState{Version: tls.VersionTLS13}
 		a = ScramSHA256PlusAuth(string(user), string(pass), cs)
+		if sha1v {
+			a = ScramSHA1PlusAuth(string(user), string(pass), cs)
+		}
 		gs2 = []byte("p=tls-exporter,,")
 		cbind = append([]byte("p=tls-exporter,,"), hxEKM(cs, "EXPORTER-Channel-Binding", nil, 32)...)
 	}
 	var nonces [][]byte
 	for round := 0; round < svParam("rounds", 2); round++ {
-		s := hxNewSrv([]string{"AUTH SCRAM-SHA-256 SCRAM-SHA-256-PLUS"})
+		s := hxNewSrv([]string{"AUTH SCRAM-SHA-256 SCRAM-SHA-256-PLUS SCRAM-SHA-1 SCRAM-SHA-1-PLUS"})
 		s.onlyOK = true
 		salt := svBytes("salt", 1)
 		iters := 1 + svPick("iterations", 2)
 		suffix := []byte("Zq")
-		z := &hxScramHonest{salt: salt, iters: iters, suffix: suffix, password: pass}
+		z := &hxScramHonest{salt: salt, iters: iters, suffix: suffix, password: pass, hnew: hnew}
 		s.authFn = z.handle
 		c := hxNewSMTPClient(s)
 		err := c.Auth(a)
@@ -282,14 +297,14 @@ func HarnessC14Scram() {
 		nonce := append(hxB64Enc(rr.reads[len(rr.reads)-1]), suffix...)
 		without := append(append(append([]byte("c="), hxB64Enc(cbind)...), ",r="...), nonce...)
 		authMsg := append(append(append(append(append([]byte{}, wantFirstBare...), ','), z.serverFirst...), ','), without...)
-		salted := pbkdf2.Key(pass, salt, iters, sha256.New().Size(), sha256.New)
-		ck := hmac.New(sha256.New, salted)
+		salted := pbkdf2.Key(pass, salt, iters, hnew().Size(), hnew)
+		ck := hmac.New(hnew, salted)
 		ck.Write([]byte("Client Key"))
 		clientKey := ck.Sum(nil)
-		hh := sha256.New()
+		hh := hnew()
 		hh.Write(clientKey)
 		stored := hh.Sum(nil)
-		sg := hmac.New(sha256.New, stored)
+		sg := hmac.New(hnew, stored)
 		sg.Write(authMsg)
 		sig := sg.Sum(nil)
 		proof := make([]byte, len(sig))
@@ -312,6 +327,7 @@ type hxScramHonest struct {
 	clientFinal            []byte
 	serverFirst            []byte
 	step                   int
+	hnew                   func() hash.Hash
 }
 
 func (z *hxScramHonest) handle(s *hxSrv, line string) {
@@ -364,10 +380,10 @@ func (z *hxScramHonest) handle(s *hxSrv, line string) {
 			p--
 		}
 		authMsg := append(append(append(append(append([]byte{}, firstBare...), ','), z.serverFirst...), ','), dec[:p-2]...)
-		salted := pbkdf2.Key(z.password, z.salt, z.iters, sha256.New().Size(), sha256.New)
-		sk := hmac.New(sha256.New, salted)
+		salted := pbkdf2.Key(z.password, z.salt, z.iters, z.hnew().Size(), z.hnew)
+		sk := hmac.New(z.hnew, salted)
 		sk.Write([]byte("Server Key"))
-		m2 := hmac.New(sha256.New, sk.Sum(nil))
+		m2 := hmac.New(z.hnew, sk.Sum(nil))
 		m2.Write(authMsg)
 		z.step = 3
 		reply("334", append([]byte("v="), hxB64Enc(m2.Sum(nil))...))
@@ -384,6 +400,11 @@ func hxEKM(cs *tls.ConnectionState, label string, context []byte, length int) []
 }
 
 func hxEKMModel(cs *tls.ConnectionState, label string, context []byte, length int) ([]byte, error) {
+	// RFC 9266: tls-exporter channel binding is 32 bytes of keying material
+	// exported with this label and an empty context, whatever the SCRAM hash
+	svAssert(label == "EXPORTER-Channel-Binding", "C14 SCRAM tls-exporter: wrong exporter label")
+	svAssert(len(context) == 0, "C14 SCRAM tls-exporter: non-empty exporter context")
+	svAssert(length == 32, "C14 SCRAM tls-exporter: exported length is not 32 bytes")
 	return svUF("ekm", length, []byte(label), context), nil
 }
 
